@@ -23,6 +23,9 @@ Template directives (line comments, one per line):
       `fn f() -> Vec<Felt> { vec![Felt::from_hex_unchecked(".."), ..] }` -> contract listing every element
       (literals parsed from the repository text; the body shape is checked token by token).
 
+  //@debug <Type>[,<Type>...]
+      generated (external, never verified nor relied on) `impl Debug`, needed where the code calls `unwrap` on a Result.
+
   //@clone <Type>[,<Type>...]
       generated `impl Clone` with structural postcondition (assumption A-clone).
 
@@ -653,6 +656,10 @@ def assemble(fragments, features, out_path):
                 i += 1
             elif d == 'hexvec':
                 emit(build_hexvec(rest, features))
+                i += 1
+            elif d == 'debug':
+                for ty in rest[0].split(','):
+                    emit('#[verifier::external] impl core::fmt::Debug for %s { fn fmt(&self, _f: &mut core::fmt::Formatter<\'_>) -> core::fmt::Result { Ok(()) } }\n' % ty)
                 i += 1
             elif d == 'clone':
                 emit(build_clone(rest))
